@@ -340,6 +340,8 @@ fn sweep_alphabet() -> Vec<Stmt> {
         Stmt::Drop(s),
         Stmt::Panic(18),
         Stmt::GuardSession { errs: vec![ErrSpec::Single(19)], finish: false },
+        // very many at once
+        Stmt::Extend { slot: s, items: (200..330).map(ErrSpec::Single).collect(), panic_after: None, catch_locally: false },
     ]
 }
 
